@@ -106,6 +106,8 @@ type interpreter struct {
 
 type ssaFunc = ssa.Function
 
+var initTrace = os.Getenv("GOSYM_INITTRACE") != ""
+
 // setCell is the single choke point for stores done by stubs.
 func (i *interpreter) setCell(p *value, v value) { *p = v }
 
@@ -601,6 +603,10 @@ func callSSA(i *interpreter, caller *frame, callpos token.Pos, fn *ssa.Function,
 			panic(engineError{"not encodable: no code for function " + name})
 		}
 	}
+	if initTrace && isPkgInit(fn) {
+		s0 := i.steps
+		defer func() { fmt.Fprintf(os.Stderr, "INIT %s %d\n", fn.Pkg.Pkg.Path(), i.steps-s0) }()
+	}
 	if i.inHarness && fn.Pkg != nil && isRepoPkg(fn.Pkg.Pkg.Path()) {
 		i.funcsRun[fn.String()]++
 	}
@@ -786,10 +792,16 @@ func NewInterp(p *Program) *interpreter {
 	theRuntimeErrorString = i.runtimeErrorString
 	initReflect(i)
 	i.osArgs = append(i.osArgs, "prog")
+	base := p.base
 	for _, pkg := range i.prog.AllPackages() {
+		shared := base != nil && sharedPkg(pkg.Pkg.Path())
 		for _, m := range pkg.Members {
 			switch v := m.(type) {
 			case *ssa.Global:
+				if shared {
+					i.globals[v] = base.globals[v]
+					continue
+				}
 				cell := zero(mustDeref(v.Type()))
 				i.globals[v] = &cell
 			}
@@ -797,6 +809,23 @@ func NewInterp(p *Program) *interpreter {
 	}
 	i.setupEnv()
 	return i
+}
+
+// BuildBase initialises, once, the packages whose state is immutable tables
+// (sharedPkg); every path interpreter aliases their globals instead of
+// re-running their initialisers.
+func (p *Program) BuildBase() {
+	p.baseOnce.Do(func() {
+		b := NewInterp(p)
+		for _, pkg := range p.Prog.AllPackages() {
+			if sharedPkg(pkg.Pkg.Path()) {
+				if f := pkg.Func("init"); f != nil {
+					call(b, nil, token.NoPos, f, nil)
+				}
+			}
+		}
+		p.base = b
+	})
 }
 
 // RunConcrete runs init and then the named function of the main package.
